@@ -16,12 +16,12 @@ import (
 type KeyStyle int
 
 const (
-	KeyNone   KeyStyle = iota
-	KeyField           // deprecated exported field (own X509KeyStore implementation)
-	KeySetter          // SetSPKeyStore / SetSPSigningKeyStore
-	KeyBoth            // field and setter, same key
-	KeyTLS             // field holding a dsig.TLSCertKeyStore
-	KeyBothDiffer      // setter holds the key; the deprecated field holds another one (setter wins)
+	KeyNone       KeyStyle = iota
+	KeyField               // deprecated exported field (own X509KeyStore implementation)
+	KeySetter              // SetSPKeyStore / SetSPSigningKeyStore
+	KeyBoth                // field and setter, same key
+	KeyTLS                 // field holding a dsig.TLSCertKeyStore
+	KeyBothDiffer          // setter holds the key; the deprecated field holds another one (setter wins)
 )
 
 func (k KeyStyle) String() string {
@@ -54,15 +54,16 @@ type SPConfig struct {
 	EncStyle   KeyStyle
 	EncKeyIdx  int
 	EncCert    *Cert
-	EncCertRaw []byte // when non-nil: the key store hands out these bytes instead (empty / unparsable certificate faults)
-	EncKeyErr  error  // when non-nil: the field key store fails
-	SigStyle  KeyStyle // KeyNone = no separate signing key
-	SigKeyIdx int
-	SigCert   *Cert
+	EncCertRaw []byte   // when non-nil: the key store hands out these bytes instead (empty / unparsable certificate faults)
+	EncKeyErr  error    // when non-nil: the field key store fails
+	SigStyle   KeyStyle // KeyNone = no separate signing key
+	SigKeyIdx  int
+	SigCert    *Cert
 
-	Store    *SimCertStore
-	NilStore bool
-	NilClock bool
+	Store      *SimCertStore
+	PlainStore bool // use a stateless dsig.MemoryX509CertificateStore with Store's certificates (concurrency engine)
+	NilStore   bool
+	NilClock   bool
 
 	Skew time.Duration
 	Loc  *time.Location
@@ -114,6 +115,13 @@ func NewSPNode(cfg *SPConfig, simNow func() time.Time) (*SPNode, error) {
 			cfg.Store = &SimCertStore{}
 		}
 		sp.IDPCertificateStore = cfg.Store
+		if cfg.PlainStore {
+			ms := &dsig.MemoryX509CertificateStore{}
+			for _, c := range cfg.Store.Certs {
+				ms.Roots = append(ms.Roots, c.X509)
+			}
+			sp.IDPCertificateStore = ms
+		}
 	}
 	if err := applyKeyRaw(sp, cfg.EncStyle, cfg.EncKeyIdx, cfg.EncCert, false, cfg.EncCertRaw, cfg.EncKeyErr); err != nil {
 		return nil, err
